@@ -2,8 +2,9 @@
 Model of the collecting loop of the server-mode worker pool (`pkg/servermode/pool.go`, `workerpool.run`):
 what the pool publishes (`w.result.Statistics`, served by `/latest`) as a function of the events its
 `select` receives.  The statistics themselves are the aggregators' (model `Agg`); here only *which
-results* a published report summarises matters, so a report is represented by the number of results
-that had been added when it was flushed (every flush is cumulative: `Agg`'s `flush` theorems).
+results* a published report summarises matters, so a report is represented by the list of results that
+had been added when it was flushed (every flush is cumulative and a function of the multiset added so
+far: `Props/C19.lean`).  `ρ` is the type of an iteration result.
 -/
 namespace Pool
 
@@ -13,50 +14,55 @@ structure Cfg where
 deriving Repr
 
 /-- what the loop's `select` can receive -/
-inductive Ev
-  | result   -- an iteration result from a worker
-  | error    -- an error from a worker
-  | cancel   -- the cancel channel was closed (`/cancel`, or the timeout watchdog)
+inductive Ev (ρ : Type)
+  | result (r : ρ)   -- an iteration result from a worker
+  | error            -- an error from a worker
+  | cancel           -- the cancel channel was closed (`/cancel`, or the timeout watchdog)
 deriving Repr, DecidableEq
 
-structure St where
-  count : Nat := 0              -- `w.currentCount`: results added to the aggregators
+structure St (ρ : Type) where
+  added : List ρ := []          -- the results handed to the aggregators, in arrival order
   lastFlush : Nat := 0
-  /-- `w.result`: `none` after an error (`handleErr` drops the result); otherwise the number of results
-  the published statistics summarise (`CreateResult` starts with empty statistics: 0) -/
-  published : Option Nat := some 0
+  /-- `w.result`: `none` after an error (`handleErr` drops the result); otherwise the results the
+  published statistics summarise (`CreateResult` starts with empty statistics: none of them) -/
+  published : Option (List ρ) := some []
   done : Bool := false
   failed : Bool := false
 deriving Repr
 
+variable {ρ : Type}
+
+/-- `w.currentCount` -/
+def St.count (s : St ρ) : Nat := s.added.length
+
 /-- leaving the loop normally: the final flush -/
-def finish (s : St) : St := { s with published := some s.count, done := true }
+def finish (s : St ρ) : St ρ := { s with published := some s.added, done := true }
 
 /-- entering `run` (after parsing and aggregator setup succeeded): the loop condition is looked at first -/
-def start (c : Cfg) : St := if 0 < c.iterations then {} else finish {}
+def start (c : Cfg) : St ρ := if 0 < c.iterations then {} else finish {}
 
 /-- one result: added to the aggregators and counted; an interim flush when the interval is exceeded -/
-def bump (c : Cfg) (s : St) : St :=
+def bump (c : Cfg) (s : St ρ) (r : ρ) : St ρ :=
   if s.count + 1 - s.lastFlush > c.flushInterval then
-    { s with count := s.count + 1, lastFlush := s.count + 1, published := some (s.count + 1) }
-  else { s with count := s.count + 1 }
+    { s with added := s.added ++ [r], lastFlush := s.count + 1, published := some (s.added ++ [r]) }
+  else { s with added := s.added ++ [r] }
 
-def step (c : Cfg) (s : St) (e : Ev) : St :=
+def step (c : Cfg) (s : St ρ) (e : Ev ρ) : St ρ :=
   if s.done then s
   else match e with
     | .error => { s with published := none, done := true, failed := true }
     | .cancel => finish s
-    | .result => if s.count + 1 < c.iterations then bump c s else finish (bump c s)
+    | .result r => if s.count + 1 < c.iterations then bump c s r else finish (bump c s r)
 
-def run (c : Cfg) (evs : List Ev) : St := evs.foldl (step c) (start c)
+def run (c : Cfg) (evs : List (Ev ρ)) : St ρ := evs.foldl (step c) (start c)
 
 /-- the results received before the loop stopped -/
-def added (c : Cfg) : Nat → List Ev → Nat
-  | n, [] => n
-  | n, e :: es =>
-    if c.iterations ≤ n then n
+def received (c : Cfg) : List ρ → List (Ev ρ) → List ρ
+  | acc, [] => acc
+  | acc, e :: es =>
+    if c.iterations ≤ acc.length then acc
     else match e with
-      | .result => added c (n + 1) es
-      | _ => n
+      | .result r => received c (acc ++ [r]) es
+      | _ => acc
 
 end Pool
